@@ -146,6 +146,10 @@ def binop(it, op, a, b, node):
             raise RaiseEx("ZeroDivisionError", it.site(node), "constant division by zero", True)
         except Exception:
             return VUnknown("binop", "unknown")
+    if isinstance(a, VUnknown) and isinstance(b, VUnknown) and a.kind == "set" and b.kind == "set" and op in ("Sub", "BitAnd", "BitOr", "BitXor"):
+        u = VUnknown("set-%s" % op, "set")  # a set again: it has members, not an order
+        u.operands = (a, b)
+        return u
     if op == "MatMult" and (isinstance(a, VTens) or isinstance(b, VTens)):
         from .ops_ext import torch_matmul
 
@@ -769,6 +773,26 @@ def index_tensor(it, tv, items, node):
     return r
 
 
+def _sym_len(it, hi, d):
+    """Length of x[:hi] along an axis of length d when hi is symbolic: hi when hi == d or the path has established hi <= d."""
+    from .interp import _cond_key
+
+    ht = num_term(hi)
+    if ht is None or d is UNK or d is None:
+        return None
+    hd = dim_of(hi)
+    if hd == d:
+        return d
+    dt = num_term(val_of_dim(d)) if not isinstance(d, int) else T.const(d)
+    if dt is None or hd is UNK:
+        return None
+    for op_, want in (("cmp_Lt", False), ("cmp_GtE", True)):  # not (d < hi)  /  d >= hi
+        k_, fl_ = _cond_key(T.app(op_, dt, ht))
+        if k_ in it.term_memo and (it.term_memo[k_] != fl_) == want:
+            return hd
+    return None
+
+
 def _index_shape(it, shape, items, node):
     n_real = sum(1 for x in items if not (isinstance(x, VConst) and (x.value is None or x.value is Ellipsis)))
     # a boolean mask / index tensor may consume one dim each
@@ -799,6 +823,8 @@ def _index_shape(it, shape, items, node):
                     out.append(len(range(*slice(lo, hi, st).indices(d))))
                 elif st in (-1,) and lo is None and hi is None:
                     out.append(d)
+                elif x.lo is None and x.step is None and x.hi is not None and _sym_len(it, x.hi, d) is not None:
+                    out.append(_sym_len(it, x.hi, d))  # x[:n] with n the axis' own length, or n <= length established on this path
                 else:
                     out.append(UNK)
             pos += 1
